@@ -31,7 +31,7 @@ func propFailoverSched(c *Case, o scenOpts, oracle func(w *world, sc *scenario, 
 		w.prepare(sc)
 
 		complete := w.runSchedule(sc.gets, ctlOpts{
-			faults: o.faults, clockSteps: o.clock, clockMenu: sc.cfg.clockMenu(), external: o.external,
+			faults: o.faults, clockSteps: o.clock, clockMenu: sc.cfg.clockMenu(), external: o.external, extCleanup: o.extCleanup,
 		})
 
 		w.reportProblems()
